@@ -41,6 +41,8 @@ def grid_strategy(kind, tier):
     @st.composite
     def case(draw):
         c = {"grid": kind, "key": draw(gen.block_keys), "key2": draw(gen.block_keys),
+             # the body is deformed / re-posed AFTER the grid object was constructed (as in a running simulation)
+             "deform_after": draw(st.sampled_from([True, True, False])), "deform_key": draw(gen.block_keys),
              "point": draw(st.lists(f(-3.0, 3.0), min_size=3, max_size=3)), "force_exp": draw(st.integers(-6, 6))}
         if kind.startswith("rod"):
             planar = kind.endswith("2d")
@@ -61,6 +63,7 @@ def build_grid(case):
     import sopht.simulator.immersed_body as spi
 
     kind = case["grid"]
+    deform = case.get("deform_after", False)
     if kind.startswith("rod"):
         rod = bodies.make_rod(case["rod"])
         dim = 2 if kind.endswith("2d") else 3
@@ -74,12 +77,26 @@ def build_grid(case):
             g = spi.CosseratRodSurfaceForcingGrid(grid_dim=3, cosserat_rod=rod,
                                                   surface_grid_density_for_largest_element=case["density"],
                                                   with_cap=(kind == "rod_surface_caps_3d"))
+        if deform:
+            # a second generated state of the same rod (new centre line, directors, radii via stretch, velocities, masses)
+            spec2 = dict(case["rod"])
+            spec2["key"] = int(case["deform_key"])
+            spec2["shape_mode"] = "bent" if spec2["shape_mode"] == "straight" else spec2["shape_mode"]
+            other = bodies.make_rod(spec2)
+            rng = np.random.Generator(np.random.Philox(key=int(case["deform_key"]) + 7))
+            for nm in ("position_collection", "director_collection", "velocity_collection", "omega_collection", "lengths",
+                       "tangents", "mass"):
+                getattr(rod, nm)[...] = getattr(other, nm)
+            # stretching changes the radius through volume conservation: element-wise factor in [0.6, 1.4]
+            rod.radius[...] = rod.radius * (0.6 + 0.8 * rng.random(rod.n_elems))
         return g, rod, dim, False, None
     geom = dict(case["geom"])
     if kind == "plane":
         geom["breadth"] = max(geom["breadth"], geom["length"] / case["n"] * 1.01)
     body = bodies.make_rigid(kind, geom)
-    Q = bodies.apply_pose(body, case["pose"])
+    Q = None
+    if not deform:
+        Q = bodies.apply_pose(body, case["pose"])
     if kind == "cylinder2d":
         g = spi.CircularCylinderForcingGrid(grid_dim=2, rigid_body=body, num_forcing_points=case["n"])
         dim = 2
@@ -92,6 +109,8 @@ def build_grid(case):
     else:
         g = spi.RectangularPlaneForcingGrid(grid_dim=3, rigid_body=body, num_forcing_points_along_length=case["n"])
         dim = 3
+    if deform:
+        Q = bodies.apply_pose(body, case["pose"])  # pose set only after the grid exists
     return g, body, dim, True, Q
 
 
@@ -169,11 +188,12 @@ def _body(case, ctx):
         ang = np.arccos(np.clip((np.trace(Qm) - 1) / 2, -1, 1))
         offaxis = p["planar"] or np.count_nonzero(np.abs(Qm) > 1e-6) > 5
         nontriv = ang >= 0.1 and offaxis and p["mode"] == "generic"
-        labels = [case["grid"], "pose_" + p["mode"]]
+        labels = [case["grid"], "pose_" + p["mode"], "reposed_after_grid_construction" if case.get("deform_after") else "posed_before"]
     else:
         r = case["rod"]
         nontriv = r["taper"] != "uniform" or case["grid"].endswith("caps_3d")
-        labels = [case["grid"], "taper_" + r["taper"], "shape_" + r["shape_mode"]]
+        labels = [case["grid"], "taper_" + r["taper"], "shape_" + r["shape_mode"],
+                  "deformed_after_grid_construction" if case.get("deform_after") else "as_constructed"]
     ctx.note(nontrivial=bool(nontriv), labels=labels)
 
 
